@@ -506,35 +506,102 @@ func rulePoolInit(c *Ctx) {
 		}
 	}
 	// useNumber is set in every decoder entry point (part of R-NUM as well)
+	isUnmarshal := func(f *ssa.Function) bool {
+		return f != nil && f.Name() == "unmarshal" && recvTypeName(f) == "decodeState"
+	}
+	// runsDecoder[f]: f (a codec function) runs the decoder on its receiver, directly or through helpers
+	runsDecoder := map[*ssa.Function]bool{}
+	for changed := true; changed; {
+		changed = false
+		for _, fn := range a.fns {
+			if runsDecoder[fn] {
+				continue
+			}
+			allInstrs(fn, func(i ssa.Instruction) {
+				if call, ok := i.(*ssa.Call); ok {
+					f := call.Call.StaticCallee()
+					if (isUnmarshal(f) || runsDecoder[f]) && len(call.Call.Args) > 0 {
+						if _, isP := call.Call.Args[0].(*ssa.Parameter); isP && !runsDecoder[fn] {
+							runsDecoder[fn] = true
+							changed = true
+						}
+					}
+				}
+			})
+		}
+	}
+	storesTrue := func(fn *ssa.Function, obj ssa.Value, before []ssa.Instruction) bool {
+		ok := false
+		allInstrs(fn, func(i ssa.Instruction) {
+			st, isSt := i.(*ssa.Store)
+			if !isSt {
+				return
+			}
+			p, okp := a.pathOf(st.Addr, map[ssa.Value]string{obj: ""})
+			if !okp || p != "useNumber" {
+				return
+			}
+			if cv, isB := boolConst(st.Val); isB && cv {
+				all := len(before) > 0
+				for _, u := range before {
+					if !b.instrDominates(st, u) {
+						all = false
+					}
+				}
+				if all {
+					ok = true
+				}
+			}
+		})
+		return ok
+	}
 	for _, w := range wins {
 		tn := derefNamed(w.typ)
 		if tn == nil || tn.Obj().Name() != "decodeState" {
 			continue
 		}
+		if _, isCtor := acquire[w.fn]; isCtor {
+			if _, isTA := w.obj.(*ssa.TypeAssert); isTA {
+				continue // the window continues in the callers of the constructor, judged there
+			}
+		}
 		key := fmt.Sprintf("window %s: useNumber is stored true before the decoder runs", w.desc)
-		ok := false
-		var unm ssa.Instruction
+		var runs []ssa.Instruction
 		allInstrs(w.fn, func(i ssa.Instruction) {
 			if call, ok2 := i.(*ssa.Call); ok2 {
-				if f := call.Call.StaticCallee(); f != nil && f.Name() == "unmarshal" && recvTypeName(f) == "decodeState" {
-					unm = call
+				if f := call.Call.StaticCallee(); (isUnmarshal(f) || runsDecoder[f]) && len(call.Call.Args) > 0 && call.Call.Args[0] == w.obj {
+					runs = append(runs, call)
 				}
 			}
 		})
-		allInstrs(w.fn, func(i ssa.Instruction) {
-			st, isSt := i.(*ssa.Store)
-			if !isSt {
-				return
-			}
-			p, okp := a.pathOf(st.Addr, map[ssa.Value]string{w.obj: ""})
-			if okp && p == "useNumber" {
-				if cv, isB := boolConst(st.Val); isB && cv && unm != nil && b.instrDominates(st, unm) {
-					ok = true
-				}
-			}
-		})
-		v := Discharged
+		ok := storesTrue(w.fn, w.obj, runs)
 		why := "d.useNumber = true dominates d.unmarshal: numbers are decoded as literal-preserving Number values whatever state the pool hands out"
+		if !ok {
+			// the constructor that handed out the state stores it on every path to its return
+			if call, isCall := w.obj.(*ssa.Call); isCall {
+				if ctor := call.Call.StaticCallee(); ctor != nil {
+					if _, isCtor := acquire[ctor]; isCtor {
+						var ta ssa.Value
+						allInstrs(ctor, func(i ssa.Instruction) {
+							if t, ok := i.(*ssa.TypeAssert); ok {
+								if c2, ok := t.X.(*ssa.Call); ok && isPoolCall(&c2.Call, "Get") {
+									ta = t
+								}
+							}
+						})
+						var rets []ssa.Instruction
+						for _, r := range liveReturns(ctor) {
+							rets = append(rets, r)
+						}
+						if ta != nil && storesTrue(ctor, ta, rets) && len(runs) > 0 {
+							ok = true
+							why = fname(ctor) + " stores useNumber = true before it hands out the state, on every path"
+						}
+					}
+				}
+			}
+		}
+		v := Discharged
 		if !ok {
 			v = Violated
 			why = "no store of the constant true to useNumber dominates the decoder run in this entry point: whether numbers keep their literal depends on which recycled state the pool hands out"
